@@ -313,44 +313,33 @@ public:
         "inter3", crab::outs() << "All calling contexts before\n";
         for (unsigned i = 0, e = ccs.size(); i < e; ++i) { ccs[i]->dump(); });
 
-    bool compress = false;
-    unsigned num_of_ccs = ccs.size();
-    if ((num_of_ccs >= 2) && (num_of_ccs > this->m_max_call_contexts)) {
-      // -- join the two oldest contexts
-      calling_context_ptr cc1 = std::move(ccs.front());
-      ccs.pop_front();
-      calling_context_ptr cc2 = std::move(ccs.front());
-      ccs.pop_front();
-      ccs.push_front(std::move(cc1->join_with(*cc2)));
-      compress = true;
-      crab::CrabStats::count(
-          "Interprocedural.num_max_calling_contexts_reached");
-      CRAB_LOG("inter",
-               crab::outs()
-                   << "[INTER] joining two oldest calling contexts\n";);
-    }
-    ccs.push_back(std::move(cc));
-
-    if (compress) {
-      // -- remove redundant contexts
-      assert(!ccs.empty());
+    // The bound on the number of calling contexts has been reached.
+    // Two summaries cannot be replaced with the join of their
+    // preconditions and the join of their postconditions: that pair
+    // says nothing about the inputs that are in the join of the
+    // preconditions but in none of them. Instead, the analysis of the
+    // callee started from an entry that already includes the oldest
+    // precondition (see analyze_callee), so the contexts subsumed by
+    // the new one can be discarded.
+    const unsigned max_ccs = std::max(1u, this->m_max_call_contexts);
+    if (ccs.size() >= max_ccs) {
       calling_context_ptr_deque new_ccs;
-      const abs_dom_t &joined_pre_summary = ccs.front()->get_pre_summary();
-      const abs_dom_t &joined_post_summary = ccs.front()->get_post_summary();
-      auto it = ccs.begin();
-      // the first one is the joined calling context so we keep it.
-      new_ccs.push_back(std::move(*it));
-      ++it;
-      for (auto et = ccs.end(); it != et; ++it) {
-        // discard any pre/post pair that is subsumed by the joined
-        // calling context
-        if (!((*it)->get_pre_summary() <= joined_pre_summary &&
-              (*it)->get_post_summary() <= joined_post_summary)) {
+      const abs_dom_t &new_pre_summary = cc->get_pre_summary();
+      for (auto it = ccs.begin(), et = ccs.end(); it != et; ++it) {
+        if (!((*it)->get_pre_summary() <= new_pre_summary)) {
           new_ccs.push_back(std::move(*it));
         }
       }
+      if (new_ccs.size() < ccs.size()) {
+        crab::CrabStats::count(
+            "Interprocedural.num_max_calling_contexts_reached");
+        CRAB_LOG("inter", crab::outs() << "[INTER] discarded "
+                                       << ccs.size() - new_ccs.size()
+                                       << " subsumed calling contexts\n";);
+      }
       std::swap(ccs, new_ccs);
     }
+    ccs.push_back(std::move(cc));
 
     CRAB_LOG(
         "inter3", crab::outs() << "All calling contexts after\n";
@@ -1427,6 +1416,18 @@ private:
           CRAB_LOG("inter-subsume", crab::outs() << "failed!\n";);
         }
       }
+      if (!call_context_already_seen && m_ctx.get_is_checking_phase()) {
+        // The calling context in which this call was analyzed might
+        // have been replaced with a more general one if the bound on
+        // the number of calling contexts was reached.
+        for (unsigned i = 0, e = call_contexts.size(); i < e; ++i) {
+          if (call_contexts[i]->is_subsumed(callee_entry, false)) {
+            callee_exit = call_contexts[i]->get_post_summary();
+            call_context_already_seen = true;
+            break;
+          }
+        }
+      }
     } else {
       CRAB_LOG("inter-subsume", 
 	       crab::outs() << "[INTER] There is no call contexts stored.\n";);
@@ -1438,6 +1439,14 @@ private:
         crab::CrabStats::count("Interprocedural.num_reused_callsites");
       }
     } else {
+      if (it != m_ctx.get_calling_context_table().end() &&
+          m_ctx.get_max_call_contexts() != UINT_MAX &&
+          it->second.size() >= std::max(1u, m_ctx.get_max_call_contexts())) {
+        // The bound on the number of calling contexts has been
+        // reached: analyze the callee also for the inputs of the
+        // oldest context so that the new summary replaces it.
+        callee_entry |= it->second.front()->get_pre_summary();
+      }
       // if (m_ctx.get_is_checking_phase()) {
       //   CRAB_ERROR("in checking phase we should not analyze the callsite ", cs);
       // }
